@@ -7,6 +7,8 @@ import (
 	"go/parser"
 	"go/types"
 	"strings"
+
+	"golang.org/x/tools/go/ssa"
 )
 
 func (x *Exec) findTypesPkg(path string) *types.Package {
@@ -69,12 +71,15 @@ func (x *Exec) resolveTypeExpr(pkg string, e ast.Expr) types.Type {
 	case *ast.InterfaceType:
 		return types.NewInterfaceType(nil, nil)
 	case *ast.Ident:
-		if x.curFn != nil {
-			if o := x.curFn.Origin(); o != nil {
+		for _, sc := range []*ssa.Function{x.tscope, x.curFn} {
+			if sc == nil {
+				continue
+			}
+			if o := sc.Origin(); o != nil {
 				tps := o.TypeParams()
 				for i := 0; i < tps.Len(); i++ {
-					if tps.At(i).Obj().Name() == n.Name && i < len(x.curFn.TypeArgs()) {
-						return x.curFn.TypeArgs()[i]
+					if tps.At(i).Obj().Name() == n.Name && i < len(sc.TypeArgs()) {
+						return sc.TypeArgs()[i]
 					}
 				}
 			}
